@@ -382,7 +382,12 @@ class Model:
                         val = vals[k]
                         k += 1
                     if f_ == "?":
-                        out.append(repr(val))
+                        if isinstance(val, float):
+                            out.append("NaN" if val != val else ("inf" if val > 0 else "-inf") if val in (float("inf"), float("-inf")) else repr(val))
+                        elif isinstance(val, int) and not isinstance(val, bool):
+                            out.append(str(int(val)))
+                        else:
+                            out.append(repr(val))
                     elif f_ == "":
                         out.append(display(val))
                     else:
@@ -499,7 +504,9 @@ def grid(model):
             EnumVal("Not", [EnumVal("Equals", ["word"])]), EnumVal("Not", [EnumVal("EqualsInt", [SInt(3)])]), EnumVal("Not", [EnumVal("Null")]),
             # strings that spell something else: quotes must keep them strings
             EnumVal("Equals", ["true"]), EnumVal("Equals", ["null"]), EnumVal("Equals", ["any"]), EnumVal("Equals", ["3"]), EnumVal("Equals", ["2.5"]), EnumVal("Equals", ["T10"]), EnumVal("Equals", [""]),
-            EnumVal("Not", [EnumVal("Equals", ["false"])])]
+            EnumVal("Not", [EnumVal("Equals", ["false"])]),
+            # floats with an integral value, strings with the list separator
+            EnumVal("EqualsFloat", [1.0]), EnumVal("GreaterThanFloat", [3.0]), EnumVal("LessThanOrEqualFloat", [-2.0]), EnumVal("Equals", ["a|b"])]
     tsos = []
     for name, fn in sorted(model.tso_ctor.items()):
         try:
@@ -534,7 +541,7 @@ def grid(model):
         doms = []
         for t in ftys:
             if t in ("&'astr", "&str"):
-                doms.append(["x", "some id"] if name not in ("AnnotationVariable", "DataVariable", "DataSetVariable", "ResourceVariable", "TextVariable", "SubStoreVariable", "KeyVariable", "KeyValueVariable", "TextRelation") else ["x"])
+                doms.append(["x", "some id"] + (["?q", "a\\", "NONE"] if name in ("Text", "Id") else []) if name not in ("AnnotationVariable", "DataVariable", "DataSetVariable", "ResourceVariable", "TextVariable", "SubStoreVariable", "KeyVariable", "KeyValueVariable", "TextRelation") else ["x"])
             elif t == "SelectionQualifier":
                 doms.append(quals)
             elif t == "AnnotationDepth":
@@ -550,7 +557,7 @@ def grid(model):
             elif t == "TextSelectionOperator":
                 doms.append([x for _, x in tsos])
             elif t in ("Option<&'astr>", "Option<&str>"):
-                doms.append([None, some("sub")])
+                doms.append([None, some("sub"), some("NONE")])
             else:
                 doms = None
                 skipped.append("%s (field type %s)" % (name, t))
@@ -599,6 +606,8 @@ def describe_difference(c, c2):
         if a != b:
             if enumlike(a) and enumlike(b):
                 out.append("%s:%s->%s" % (f, a, b))
+            elif isinstance(a, EnumVal) and isinstance(b, EnumVal):
+                out.append("%s:%s->%s" % (f, a.name, b.name) if a.name != b.name else "%s:%s(..)" % (f, a.name))
             elif isinstance(a, (StructVal, OpVal)) and isinstance(b, (StructVal, OpVal)) and getattr(a, "tyname", None) == getattr(b, "tyname", None):
                 inner = [k for k in sorted(a) if a[k] != b.get(k)] if isinstance(a, StructVal) else []
                 out.append("%s.%s" % (f, "+".join(inner) or "?"))
